@@ -1,54 +1,108 @@
 (* CompressionFormat (src/compression_format.rs): the enum's compress / decompress are the entry points
    of the variant (compression_format.rs:20-25, 27-32), hence decompress . compress = id through the enum
-   for both variants - the empty payload included - and what happens when the two formats are crossed. *)
+   for both variants - the empty payload included - what happens when the two formats are crossed, and the
+   size guards of F21 seen through the enum. *)
 From Coq Require Import List NArith Arith Lia Bool.
 From Mila Require Import Lib.Bytes Lib.Machine Model.LZCore Model.LZ10 Model.LZ11 Model.LZSpec Model.LZDecode
-  Proofs.LZ10Proofs Proofs.LZ11Proofs Proofs.LZDecodeProofs Proofs.LZRoundTrip.
+  Proofs.LZ10Proofs Proofs.LZ11Proofs Proofs.LZDecodeProofs Proofs.LZRoundTrip Proofs.LZRoundTripExt.
 Import ListNotations.
 Local Open Scope N_scope.
 
 Theorem cf_compress_dispatch f m x :
-  cf_compress f m x = match f with CF10 => Ok (compress10 x) | CF13 => compress13 m x end.
+  cf_compress f m x = match f with CF10 => compress10_o x | CF13 => compress13_o m x end.
 Proof. reflexivity. Qed.
 
-(* decompress (compress x) = x through the enum, compress in profile mc, decompress in profile md *)
+Lemma compress10_o_small x : lenN x < 2 ^ 24 -> compress10_o x = Ok (compress10 x).
+Proof.
+  intros H. unfold compress10_o. rewrite lenN_tr_eq. change (2 ^ 24) with 16777216 in H.
+  destruct (N.ltb_spec 16777215 (lenN x)); [lia | reflexivity].
+Qed.
+Lemma compress10_o_rejects x : 2 ^ 24 <= lenN x -> compress10_o x = Err ETooLarge.
+Proof.
+  intros H. unfold compress10_o. rewrite lenN_tr_eq. change (2 ^ 24) with 16777216 in H.
+  destruct (N.ltb_spec 16777215 (lenN x)); [reflexivity | lia].
+Qed.
+Lemma compress10_o_ok_inv x c : compress10_o x = Ok c -> lenN x < 2 ^ 24 /\ c = compress10 x.
+Proof.
+  unfold compress10_o. rewrite lenN_tr_eq. change (2 ^ 24) with 16777216.
+  destruct (N.ltb_spec 16777215 (lenN x)) as [Hb|Hs]; [discriminate|]. intros Hc. injection Hc as <-. split; [lia | reflexivity].
+Qed.
+
+(* whatever LZ10 compress accepts comes back: no size hypothesis - success of compress IS the size condition *)
+Theorem compress10_o_round_trip x c : wfb x -> compress10_o x = Ok c -> forall m, lz10_decompress m c = Ok x.
+Proof.
+  intros Hw Hc m. destruct (compress10_o_ok_inv x c Hc) as [Hn ->]. apply compress10_round_trip; assumption.
+Qed.
+
+(* ... and the same for LZ13 *)
+Theorem compress13_o_round_trip_inv mc x c : wfb x -> compress13_o mc x = Ok c -> forall m, lz13_decompress m c = Ok x.
+Proof.
+  intros Hw Hc m. destruct (compress13_o_ok_inv mc x c Hc) as [Hn _].
+  destruct (compress13_o_round_trip mc x Hw Hn) as (c' & Hc' & Hd). rewrite Hc in Hc'. injection Hc' as <-. apply Hd.
+Qed.
+
+(* decompress (compress x) = x through the enum, compress in profile mc, decompress in profile md:
+   whenever compress returns Ok (no size hypothesis), and it does return Ok below the format's limit *)
+Theorem cf_round_trip_ok f mc md x c : wfb x -> cf_compress f mc x = Ok c -> cf_decompress f md c = Ok x.
+Proof.
+  intros Hw Hc. destruct f; cbn [cf_compress cf_decompress] in *.
+  - exact (compress10_o_round_trip x c Hw Hc md).
+  - exact (compress13_o_round_trip_inv mc x c Hw Hc md).
+Qed.
+
+Definition cf_limit (f : cformat) : N := match f with CF10 => 2 ^ 24 | CF13 => 2 ^ 32 end.
+
+Theorem cf_compress_total f mc x :
+  (lenN x < cf_limit f -> exists c, cf_compress f mc x = Ok c) /\
+  (cf_limit f <= lenN x -> cf_compress f mc x = Err ETooLarge).
+Proof.
+  destruct f; cbn [cf_compress cf_limit]; split; intros H.
+  - rewrite (compress10_o_small x H). eauto.
+  - exact (compress10_o_rejects x H).
+  - rewrite (compress13_o_small mc x H). destruct (compress13_enc mc x) as [h Hh]; [|eauto].
+    change (2 ^ 32) with 4294967296 in H. change (2 ^ 63) with 9223372036854775808. lia.
+  - exact (compress13_o_rejects mc x H).
+Qed.
+
 Theorem cf_round_trip f mc md x : wfb x -> lenN x < 2 ^ 24 ->
   exists c, cf_compress f mc x = Ok c /\ cf_decompress f md c = Ok x.
 Proof.
-  intros Hw Hn. destruct f; cbn [cf_compress cf_decompress].
-  - eexists. split; [reflexivity|]. apply compress10_round_trip; assumption.
-  - destruct x as [|b x].
-    + apply compress13_empty_round_trip.
-    + destruct (compress13_round_trip mc (b :: x) ltac:(discriminate) Hw Hn) as (c & Hc & Hd). eauto.
+  intros Hw Hn.
+  assert (Hl : lenN x < cf_limit f).
+  { destruct f; cbn [cf_limit]; [exact Hn|]. change (2 ^ 24) with 16777216 in Hn. change (2 ^ 32) with 4294967296. lia. }
+  destruct (proj1 (cf_compress_total f mc x) Hl) as [c Hc]. exists c. split; [exact Hc|].
+  exact (cf_round_trip_ok f mc md x c Hw Hc).
 Qed.
 
 (* the head of what the two compressors write *)
 Lemma compress10_head x : exists r, compress10 x = 0x10 :: r.
 Proof. rewrite compress10_enc. cbn [header10 app]. eauto. Qed.
 
-Lemma compress13_head m x c : lenN x < 2 ^ 63 -> compress13 m x = Ok c ->
+Lemma compress13_head m x c : compress13_o m x = Ok c ->
   exists a b d r, c = 0x13 :: a :: b :: d :: 0x11 :: r.
 Proof.
-  intros Hn Hc. destruct (compress13_enc m x Hn) as [h Hh]. rewrite Hh in Hc. injection Hc as <-.
+  intros Hc. destruct (compress13_o_ok_inv m x c Hc) as [Hn Hc'].
+  assert (Hn63 : lenN x < 2 ^ 63) by (change (2 ^ 32) with 4294967296 in Hn; change (2 ^ 63) with 9223372036854775808; lia).
+  destruct (compress13_enc m x Hn63) as [h Hh]. rewrite Hh in Hc'. injection Hc' as <-.
   unfold header13, le24. cbn [app]. eauto 8.
 Qed.
 
 (* crossing the formats.  The LZ13 entry point passes a bare LZ10 stream through, so a file written by the
    LZ10 format is read back by the LZ13 format; the LZ10 entry point rejects the 0x13 wrapper. *)
-Theorem cf13_reads_cf10 mc md x : wfb x -> lenN x < 2 ^ 24 ->
-  exists c, cf_compress CF10 mc x = Ok c /\ cf_decompress CF13 md c = Ok x.
+Theorem cf13_reads_cf10 mc md x c : wfb x -> cf_compress CF10 mc x = Ok c -> cf_decompress CF13 md c = Ok x.
 Proof.
-  intros Hw Hn. cbn [cf_compress cf_decompress]. eexists. split; [reflexivity|].
-  pose proof (compress10_round_trip x Hw Hn md) as Hr. unfold lz10_decompress in Hr.
+  intros Hw Hc. cbn [cf_compress cf_decompress] in *.
+  pose proof (compress10_o_round_trip x c Hw Hc md) as Hr. unfold lz10_decompress in Hr.
+  destruct (compress10_o_ok_inv x c Hc) as [_ ->].
   destruct (compress10_head x) as [r Hr0]. rewrite Hr0 in *.
   destruct r as [|a [|b [|d r]]]; try (rewrite (lz_short md) in Hr by (cbn [length]; lia); discriminate).
   rewrite lz13_bare by (intro; discriminate). exact Hr.
 Qed.
 
-Theorem cf10_rejects_cf13 mc md x c : lenN x < 2 ^ 63 ->
+Theorem cf10_rejects_cf13 mc md x c :
   cf_compress CF13 mc x = Ok c -> cf_decompress CF10 md c = Err EInvalidInput.
 Proof.
-  intros Hn Hc. cbn [cf_compress cf_decompress] in *.
-  destruct (compress13_head mc x c Hn Hc) as (a & b & d & r & ->).
+  intros Hc. cbn [cf_compress cf_decompress] in *.
+  destruct (compress13_head mc x c Hc) as (a & b & d & r & ->).
   unfold lz10_decompress. apply lz_unknown_type; intro; discriminate.
 Qed.
